@@ -88,6 +88,7 @@ type hOp struct {
 	Timestamp uint64  `json:"timestamp,omitempty"`
 	TimeLock  uint64  `json:"time_lock,omitempty"`
 	Transfer  bool    `json:"transfer,omitempty"`
+	UpperTo   bool    `json:"upper_to,omitempty"` // create: the recipient address is written in upper case
 	// create: the secret the generator built the hash lock from (bookkeeping for later claims, not sent);
 	// claim: the secret presented
 	Secret string `json:"secret,omitempty"`
@@ -179,7 +180,7 @@ type counters struct {
 	// restarts
 	reimports, reimpOpenPlain, reimpOpenIn, reimpOpenOut, reimpForgot, reimpSupply, reimpAtExpiryM1 int
 	bursts, burstRefunded                                                                           int
-	boundaryRestarts, boundaryRestartsAtExpiry                                                      int
+	boundaryRestarts, boundaryRestartsAtExpiry, upperTo                                             int
 	impPlainRefunded, impInRefunded, impOutRefunded, impClaimed, impTwice                           int
 	recreatedForgotten, claimForgotten                                                              int
 	// parameter-change shapes
@@ -821,7 +822,11 @@ func (m *machine) applyCreate(op hOp) error {
 	hl, _ := hex.DecodeString(op.HashLock)
 	id := refID(hl, sender, to, cs)
 	predOK, why := m.predictCreate(op, sender, to, cs, id)
-	msg := &htlctypes.MsgCreateHTLC{Sender: sender.String(), To: to.String(), Amount: sdkCoins(cs), HashLock: op.HashLock,
+	toStr := to.String()
+	if op.UpperTo {
+		toStr = strings.ToUpper(toStr) // the same account: a bech32 string is valid in all-upper-case form as well
+	}
+	msg := &htlctypes.MsgCreateHTLC{Sender: sender.String(), To: toStr, Amount: sdkCoins(cs), HashLock: op.HashLock,
 		Timestamp: op.Timestamp, TimeLock: op.TimeLock, Transfer: op.Transfer}
 	if op.Transfer {
 		msg.ReceiverOnOtherChain, msg.SenderOnOtherChain = "0xreceiver", "0xsender"
@@ -861,6 +866,14 @@ func (m *machine) applyCreate(op hOp) error {
 		return pbt.Failf(m.sig("response"), "unexpected response %T", res.Resp)
 	}
 	gotID := strings.ToLower(resp.Id)
+	if op.UpperTo {
+		m.n.upperTo++
+	}
+	if m.c03() && op.To == toEscrow && !op.Transfer {
+		// a claim would "pay" escrow -> escrow and an expiry refunds nothing after a claim: these funds can never leave
+		// the escrow account once, whatever happens
+		return pbt.Failf("C03/escrow-account-accepted-as-recipient", "contract %s names the htlc escrow account itself (%s) as recipient and was accepted: its funds can never leave escrow", gotID, toStr)
+	}
 	if m.c03() {
 		if gotID != id {
 			return pbt.Failf("C03/id-mismatch", "contract id %s, sha256(hashlock||sender||to||amount) = %s", gotID, id)
@@ -1414,6 +1427,7 @@ func (m *machine) Classify() (bool, []string) {
 	add(n.f11Changes, "f11-incompatible-param-change")
 	add(n.reimports, "reimport")
 	add(n.bursts, "bucket-with->100-contracts")
+	add(n.upperTo, "recipient-in-upper-case-accepted")
 	add(n.boundaryRestarts, "restart-at-a-block-boundary")
 	add(n.boundaryRestartsAtExpiry, "restart-at-the-boundary-to-an-expiry-height")
 	add(n.burstRefunded, "bucket-with->100-contracts-expired")
